@@ -729,12 +729,11 @@ func (c *Codec) DecodeStream(reader io.Reader) (framer.Frame, error) {
 			return errors.Newf("unknown channel key: %v", key)
 		}
 		s.DataType = dataType
-		if dataType.IsVariable() {
-			s.Data = make([]byte, dataLenOrSize)
-		} else {
-			s.Data = make([]byte, dataType.Density().Size(int64(dataLenOrSize)))
+		size := int64(dataLenOrSize)
+		if !dataType.IsVariable() {
+			size = int64(dataType.Density().Size(int64(dataLenOrSize)))
 		}
-		if _, err = c.reader.Read(s.Data); err != nil {
+		if s.Data, err = c.readData(size); err != nil {
 			return err
 		}
 		if !fgs.equalTimeRanges {
@@ -775,6 +774,30 @@ func (c *Codec) DecodeStream(reader io.Reader) (framer.Frame, error) {
 			return framer.Frame{}, err
 		}
 	}
+}
+
+// maxDataPrealloc bounds how much memory decodeSeries allocates on the word of a length
+// field alone. The length comes from the wire (possibly from an untrusted peer), so larger
+// series grow their buffer only as the bytes actually arrive.
+const maxDataPrealloc = 64 * 1024
+
+// readData reads exactly size bytes of series data.
+func (c *Codec) readData(size int64) ([]byte, error) {
+	if size <= maxDataPrealloc {
+		data := make([]byte, size)
+		_, err := c.reader.Read(data)
+		return data, err
+	}
+	data := make([]byte, 0, maxDataPrealloc)
+	for int64(len(data)) < size {
+		n := min(size-int64(len(data)), int64(maxDataPrealloc))
+		start := len(data)
+		data = append(data, make([]byte, n)...)
+		if _, err := c.reader.Read(data[start:]); err != nil {
+			return nil, err
+		}
+	}
+	return data, nil
 }
 
 // readTimeRange reads a time range using the codec's reader.
